@@ -43,7 +43,11 @@ CONSTANTS
     MaxJobs,    \* bound on the number of jobs created
     MaxQueue,   \* bound on the number of queued node actions
     BJoin, BRejoin, BLeave, BDup, BErr, BUnknown, BAbort, BSendFail,  \* event budgets
-    Depth       \* number of recorded steps of a generated behaviour; 0 = no history
+    Depth,      \* number of recorded steps of a generated behaviour; 0 = no history
+    Locks,      \* TRUE: c.mu / j.mu acquisition of the completion handler, ResizeAbort and
+                \* completeCurrentJob are separate steps (lock order, wait-for graph); FALSE: atomic
+    HandlerReadsState  \* TRUE: the completion handler reads cluster state (c.mu.RLock) while it
+                \* holds j.mu - the lock-order inversion the design forbids (not the code at HEAD)
 
 Nodes == Members \cup Joiners
 Jobs  == 1..MaxJobs
@@ -73,6 +77,9 @@ VARIABLES
     stuckH,     \* number of handler goroutines blocked forever
     jmuStuck,   \* jobs whose j.mu is held by a goroutine blocked forever
     cmuStuck,   \* c.mu is held by a goroutine blocked forever
+    cmu,        \* Locks: who holds c.mu for writing between two steps: "" | "L" (completeCurrentJob) | "A" (abortCurrentJob)
+    jmu,        \* Locks: job -> "" | "H" (a completion handler holds j.mu)
+    hpend,      \* Locks: the completion the handler holding j.mu is processing (NoComp = none)
     hist        \* recorded steps (generation only)
 
 cvars == <<state, nodes, queue>>
@@ -81,8 +88,10 @@ lvars == <<lpc, lact, ljob, lres, setNormal>>
 rvars == <<rpc, rerr, sendFail>>
 evars == <<instr, sent, out, bud>>
 svars == <<stuckH, jmuStuck, cmuStuck>>
-vars  == <<cvars, jvars, lvars, rvars, evars, svars, hist>>
-mview == <<cvars, jvars, lvars, rvars, evars, svars>>
+kvars == <<cmu, jmu, hpend>>
+vars  == <<cvars, jvars, lvars, rvars, evars, svars, kvars, hist>>
+mview == <<cvars, jvars, lvars, rvars, evars, svars, kvars>>
+NoComp == [j |-> 0, n |-> "", kind |-> ""]
 
 Fixed == Variant = "fixed"
 
@@ -142,6 +151,7 @@ Init ==
     /\ bud = [join |-> BJoin, rejoin |-> BRejoin, leave |-> BLeave, dup |-> BDup, err |-> BErr,
               unknown |-> BUnknown, abort |-> BAbort, sendfail |-> BSendFail]
     /\ stuckH = 0 /\ jmuStuck = {} /\ cmuStuck = FALSE
+    /\ cmu = "" /\ jmu = [j \in Jobs |-> ""] /\ hpend = NoComp
     /\ hist = << >>
 
 -----------------------------------------------------------------------------
@@ -450,9 +460,78 @@ Settle ==
     /\ hist' = [hist EXCEPT ![Len(hist)].obs = Obs]
     /\ UNCHANGED mview
 
+(* ---- locks (DESIGN: lock order is c.mu before j.mu) ------------------------------------ *)
+(* With Locks = TRUE the three code paths that hold two locks are split where the second    *)
+(* lock is taken:                                                                           *)
+(*   completion handler : j.mu (HAcquire) ... body (HFinish); the body takes no other lock  *)
+(*                        unless HandlerReadsState (then it needs c.mu.RLock)                *)
+(*   abortCurrentJob    : c.mu (ALock) ... setState needs j.mu (ABody)                       *)
+(*   completeCurrentJob : c.mu (LCLock) ... setState needs j.mu (LCBody)                     *)
+(* Every other step that takes c.mu needs it free; every other step that takes j.mu needs   *)
+(* it free.                                                                                 *)
+CmuFree == cmu = ""
+JmuFree(j) == IF j = 0 THEN TRUE ELSE jmu[j] = ""
+Rest == <<cvars, jvars, lvars, rvars, evars, svars, hist>>
+
+LCLock ==
+    /\ Locks /\ lpc = "complete" /\ CmuFree /\ ~cmuStuck
+    /\ cmu' = "L" /\ UNCHANGED <<jmu, hpend>> /\ UNCHANGED Rest
+LCBody ==
+    /\ Locks /\ cmu = "L" /\ JmuFree(curJob)
+    /\ LComplete
+    /\ cmu' = "" /\ UNCHANGED <<jmu, hpend>>
+
+ALock ==
+    /\ Locks /\ bud.abort > 0 /\ state = "RESIZING" /\ CmuFree /\ ~cmuStuck
+    /\ cmu' = "A" /\ UNCHANGED <<jmu, hpend>> /\ UNCHANGED Rest
+ABody ==
+    /\ Locks /\ cmu = "A" /\ JmuFree(curJob)
+    /\ Abort
+    /\ cmu' = "" /\ UNCHANGED <<jmu, hpend>>
+
+\* a completion handler has looked the job up (c.mu.RLock, released) and takes j.mu
+HAcquire(j, n, kind) ==
+    /\ Locks /\ hpend = NoComp /\ CmuFree /\ ~cmuStuck
+    /\ <<j, n>> \in instr /\ (kind = "err" => bud.err > 0)
+    /\ JmuFree(j) /\ j \notin jmuStuck
+    /\ jmu' = [jmu EXCEPT ![j] = "H"] /\ hpend' = [j |-> j, n |-> n, kind |-> kind]
+    /\ UNCHANGED cmu /\ UNCHANGED Rest
+\* ... and runs its body and releases j.mu
+HFinish ==
+    /\ Locks /\ hpend # NoComp
+    /\ HandlerReadsState => CmuFree
+    /\ Deliver(hpend.j, hpend.n, hpend.kind)
+    /\ jmu' = [jmu EXCEPT ![hpend.j] = ""] /\ hpend' = NoComp /\ UNCHANGED cmu
+
+K == UNCHANGED kvars
+LTakeK == LTake /\ K
+LRecvK == LRecv /\ K
+LNormK == LNorm /\ (setNormal => CmuFree) /\ K
+LGenK == LGen /\ CmuFree /\ K
+LMemberK == LMember /\ CmuFree /\ K
+RRunK(j) == RRun(j) /\ JmuFree(j) /\ K
+LCompleteK == ~Locks /\ LComplete /\ K
+DeliverK(j, n, k) == Deliver(j, n, k) /\ CmuFree /\ JmuFree(j) /\ K
+CoordStepK ==
+    \/ LTakeK \/ LRecvK \/ LNormK \/ LGenK \/ LMemberK
+    \/ (\E j \in Jobs : RRunK(j))
+    \/ LCompleteK
+    \/ LCLock \/ LCBody \/ ABody \/ HFinish
+
+EnvStepK ==
+    \/ (\E n \in Joiners \cup Rejoiners : Join(n) /\ CmuFree /\ K)
+    \/ (\E n \in Leavers : Leave(n) /\ CmuFree /\ K)
+    \/ (\E j \in Jobs, n \in Nodes, k \in {"ok", "err"} :
+            DeliverK(j, n, k) \/ (Dup(j, n, k) /\ CmuFree /\ JmuFree(j) /\ K))
+    \/ (\E k \in {"ok", "err"} : Unknown(k) /\ CmuFree /\ K)
+    \/ (Abort /\ (~Locks \/ state # "RESIZING") /\ CmuFree /\ K)
+    \/ (ArmSendFail /\ K)
+    \/ ALock
+    \/ (\E j \in Jobs, n \in Nodes, k \in {"ok", "err"} : HAcquire(j, n, k))
+
 Next ==
-    \/ CoordStep /\ (Gran = "fine" => Room)
-    \/ EnvStep /\ Room /\ (Gran = "sync" => (~CoordCanStep /\ Settled))
+    \/ CoordStepK /\ (Gran = "fine" => Room)
+    \/ EnvStepK /\ Room /\ (Gran = "sync" => (~CoordCanStep /\ Settled))
     \/ Settle
 
 Spec == Init /\ [][Next]_vars
@@ -460,10 +539,11 @@ Spec == Init /\ [][Next]_vars
 \* fairness: every coordinator step; every outstanding instruction of a job is
 \* eventually answered (the environment owes that answer)
 Fairness ==
-    /\ WF_vars(LTake) /\ WF_vars(LNorm) /\ WF_vars(LGen) /\ WF_vars(LRecv)
-    /\ WF_vars(LComplete) /\ WF_vars(LMember)
-    /\ \A j \in Jobs : WF_vars(RRun(j))
-    /\ \A j \in Jobs : \A n \in Nodes : WF_vars(Deliver(j, n, "ok"))
+    /\ WF_vars(LTakeK) /\ WF_vars(LNormK) /\ WF_vars(LGenK) /\ WF_vars(LRecvK)
+    /\ WF_vars(LCompleteK) /\ WF_vars(LMemberK)
+    /\ \A j \in Jobs : WF_vars(RRunK(j))
+    /\ \A j \in Jobs : \A n \in Nodes : WF_vars(DeliverK(j, n, "ok"))
+    /\ WF_vars(LCLock) /\ WF_vars(LCBody) /\ WF_vars(ABody) /\ WF_vars(HFinish)
 
 FairSpec == Spec /\ Fairness
 
@@ -501,6 +581,16 @@ MembershipOnlyAfterAllOk ==
 NoHandlerStuck ==
     /\ stuckH = 0 /\ jmuStuck = {} /\ ~cmuStuck
     /\ lpc # "stuck" /\ \A j \in Jobs : rpc[j] # "blocked"
+
+\* ---- lock order: no cycle in the wait-for graph of c.mu / j.mu
+\* Edges: the handler holding j.mu[hpend.j] waits for the holder of c.mu iff it needs c.mu
+\* (HandlerReadsState) and c.mu is held; the holder of c.mu ("L" completeCurrentJob, "A"
+\* abortCurrentJob) waits for the handler iff the job it completes is the handler's job.
+HandlerWaitsForCmu == hpend # NoComp /\ HandlerReadsState /\ cmu # ""
+CmuHolderWaitsForHandler == cmu # "" /\ curJob # 0 /\ jmu[curJob] = "H"
+NoLockCycle == ~(HandlerWaitsForCmu /\ CmuHolderWaitsForHandler /\ hpend.j = curJob)
+\* the design rule that guarantees it: whoever holds j.mu never asks for c.mu
+LockOrder == hpend # NoComp => ~HandlerReadsState
 
 \* the environment owes an answer to the job the listener waits for
 Owed == lpc = "wait" /\ curJob = ljob /\ ~Terminal(jstate[ljob]) /\ \E n \in Nodes : <<ljob, n>> \in instr
